@@ -512,6 +512,23 @@ for _p in ("C06", "C07", "C08", "C09", "C10", "C11", "C12", "C13", "C15", "C16",
     PROPS[_p]["scripts"] = {"cfg": "MC_Node_scripts.cfg", "num": {"quick": 40, "thorough": 400}, "depth": 41}
 
 
+# the probe round, exhaustively: every interleaving of one probe round and what follows it (MC_Node scope "probe") is
+# (a) model-checked with the property's monitor and (b) printed behaviour by behaviour and replayed on the real code
+PROBE_WHAT = ("exhaustive: scope 'probe' of MC_Node - two members learnt, the probe timer fires, then EVERY sequence of "
+              "pending timers (indirect probe, next probe, suspicion timeout) and round-related datagrams (Ack / ForwardedAck with "
+              "current and stale probe numbers from either peer and for either origin, Ping, gossip suspecting / refuting / "
+              "burying the probed member or suspecting the instance)")
+for _p in ("C11", "C12", "C13"):
+    PROPS[_p]["mc"] = PROPS[_p]["mc"] + [
+        {"module": "MC_Node", "cfg": "MC_Node_probe.cfg", "workers": 8, "timeout": 900, "env": {"MC_MONSET": _p},
+         "what": PROBE_WHAT + ", 3 free steps", "tiers": ("quick",)},
+        {"module": "MC_Node", "cfg": "MC_Node_probe7.cfg", "workers": 12, "timeout": 2400, "env": {"MC_MONSET": _p},
+         "what": PROBE_WHAT + ", 5 free steps", "tiers": ("thorough",)}]
+    PROPS[_p]["scripts_exh"] = {"cfg": {"quick": "MC_Node_probe_scripts.cfg", "thorough": "MC_Node_probe_scripts6.cfg"},
+                                "env": {"quick": {"MC_ONECFG": "1"}, "thorough": {}},
+                                "shards": {"quick": 4, "thorough": 10}, "what": PROBE_WHAT}
+
+
 # C04, second sentence ("any suspicion raised is refuted ... or absorbed by the indirect probe"): complete traces of
 # 3-member clusters with every datagram of the window dropped are validated per node (conformance) with the probe
 # monitor: a suspicion raised although an Ack / ForwardedAck of the round had been received is "not absorbed"
